@@ -5,7 +5,7 @@ postorder / left_sibling / right_sibling / lca / dominance / levels and
 treeoutput.compute_export_numbering.  Every evaluation -- also the internal
 ones the repository makes itself (preorder calls children, ...) -- is compared
 with the model of the tree currently under test."""
-from . import contracts, gen, model
+from . import common, contracts, gen, model
 
 PROPERTY = 'C19'
 LEVEL = 'exploration'
@@ -22,7 +22,8 @@ ASSUMPTIONS = ['model.MN (set-based tree model written for this check) is '
 WATCHDOG = {'quick': 600, 'thorough': 3600}
 LONG_SENTENCES = 3      # floor for the stratum the runner adds (gen.maybe_long)
 MIN = {'quick': {'distinct': 300, 'strata': {'after in-place change': 300,
-                                           'deep copy with nodes added': 200},
+                                           'deep copy with nodes added': 200,
+                                           'after a transformation of the same tree': 200},
                  'hooks': {'trees.children': 1000, 'trees.terminals': 1000,
                            'trees.preorder': 300, 'trees.postorder': 300,
                            'trees.lca': 1000, 'trees.left_sibling': 500,
@@ -304,6 +305,34 @@ def run_tree(ctx, spec, rng, again=True):
         defects, m = model.snapshot(live)
         if mutate_in_place(m, rng):
             evaluate(ctx, spec, live, rng, tag='after in-place change')
+    if again and rng.random() < 0.25:
+        # the tree after the repository's own transformations worked on it in
+        # place - after everything above (levels, numbering, navigation) has
+        # been computed for the old shape
+        tr = R.transform
+        names = rng.choice([['collapse_unary_chains'], ['add_topnode'],
+                            ['collapse_unary_chains',
+                             'uncollapse_unary_chains'],
+                            ['root_attach'], ['negra_mark_heads', 'binarize'],
+                            ['root_attach', 'negra_mark_heads', 'boyd_split',
+                             'raising'], ['punctuation_delete']])
+        # the model of the old shape says nothing about calls the
+        # transformations make while the tree is being rebuilt
+        Cur.root, Cur.by_id = None, {}
+        with common.captured():
+            try:
+                for name in names:
+                    live = getattr(tr, name)(live)
+            except Exception:
+                live = None     # judged where the transformations are the subject
+        if live is not None:
+            defects, m = model.snapshot(live)
+            if not defects:
+                evaluate(ctx, spec, live, rng,
+                         tag='after a transformation of the same tree')
+            m = None
+        else:
+            live = model.build_live_tree(spec, T, rng)
     if again and rng.random() < 0.2:
         # a deep copy of the tree (how a caller keeps a tree, since the
         # transformations work in place), the original released, and nodes
